@@ -1,4 +1,36 @@
-// harness ops for reason (filled in when the module is ported)
-pub fn handle(_op: &str, _args: &[&str], _text: &str) -> Option<String> {
-    None
+// harness ops for reason.rs (the backward reasoner), entered through the string API of
+// wrappers.rs:
+//   cant_halt <depth> | prog      cant_blank <depth> | prog      cant_spin_out <depth> | prog
+// output: refuted(<step>) | init | linrec | spinout | step_limit | depth_limit
+// (a panic of the real code is turned into PANIC by run_line in main.rs)
+use crate::wrappers::{
+    py_cant_blank, py_cant_halt, py_cant_spin_out, BackwardResult,
+};
+
+fn show_backward(r: &BackwardResult) -> String {
+    match r {
+        BackwardResult::refuted { step } => format!("refuted({step})"),
+        BackwardResult::init {} => "init".to_owned(),
+        BackwardResult::linrec {} => "linrec".to_owned(),
+        BackwardResult::spinout {} => "spinout".to_owned(),
+        BackwardResult::step_limit {} => "step_limit".to_owned(),
+        BackwardResult::depth_limit {} => "depth_limit".to_owned(),
+    }
+}
+
+pub fn handle(op: &str, args: &[&str], text: &str) -> Option<String> {
+    let run: fn(&str, usize) -> BackwardResult = match op {
+        "cant_halt" => py_cant_halt,
+        "cant_blank" => py_cant_blank,
+        "cant_spin_out" => py_cant_spin_out,
+        _ => return None,
+    };
+
+    let [depth] = args else {
+        return None;
+    };
+
+    let depth: usize = depth.parse().unwrap();
+
+    Some(show_backward(&run(text, depth)))
 }
